@@ -60,7 +60,9 @@ MCSetCands ==
           \* (an AES secret of exactly one cipher block: the padding block must still be written)
           [] pk[1] = <<"sub">> -> {StrV(<<"s", "u", "b", "t", "o", "k", "e", "n", "#", "1">>),
                                   StrV(<<"b", "l", "o", "c", "k", "-", "o", "f", "-", "1", "6", "-", "c", "h", "#", "!">>)}
-          [] pk[2] = "vault" -> {D1(<<"s", "e", "c">>, StrV(<<"v", "a", "u", "l", "t", "s", "e", "c", "#", "2">>)), [t |-> "cfgobj", c |-> VaultObj]}
+          [] pk[2] = "vault" -> {D1(<<"s", "e", "c">>, StrV(<<"v", "a", "u", "l", "t", "s", "e", "c", "#", "2">>)), [t |-> "cfgobj", c |-> VaultObj],
+                                 \* a rejected map: the valid entries come first
+                                 D2(<<"s", "e", "c">>, StrV(<<"r", "e", "j", "e", "c", "t", "e", "d", "#", "1">>), <<"i", "n", "n", "e", "r">>, D1(<<"n">>, StrV(<<"x">>)))}
           [] pk[2] = "sec"   -> {StrV(<<"v", "a", "u", "l", "t", "s", "e", "c", "#", "3">>)}
           [] pk[1] = <<"vault", "inner">> -> {StrV(<<"i", "n", "n", "e", "r", "t", "o", "k", "#", "4">>)}
           [] pk[2] = "items" -> {ListV(<<D2(<<"u">>, StrV(<<"a", "l", "i", "c", "e">>), <<"p", "w">>, StrV(<<"i", "t", "e", "m", "p", "a", "s", "s", "#", "5">>))>>),
@@ -109,7 +111,8 @@ MCSetCandsK ==
              << <<"v1", "inner">>, "v2">>, << <<"v1", "inner", "v2">>, "s2">>, << <<>>, "items">>, << <<>>, "api">>} |->
         CASE pk = << <<>>, "pw">> -> {Sx(<<"r", "o", "o", "t", "p", "w", "#", "5">>), Sx(<<>>)}
           [] pk = << <<"sub">>, "tok">> -> {Sx(<<"s", "u", "b", "t", "o", "k", "#", "6">>)}
-          [] pk = << <<>>, "v1">> -> {D1(<<"s", "e", "c">>, Sx(<<"v", "1", "s", "e", "c", "#", "7", "!">>)), [t |-> "cfgobj", c |-> KV1Obj]}
+          [] pk = << <<>>, "v1">> -> {D1(<<"s", "e", "c">>, Sx(<<"v", "1", "s", "e", "c", "#", "7", "!">>)), [t |-> "cfgobj", c |-> KV1Obj],
+                                     D2(<<"s", "e", "c">>, Sx(<<"r", "e", "j", "e", "c", "t", "e", "d", "#", "2">>), <<"z", "z">>, IntV(1))}
           [] pk = << <<"v1">>, "sec">> -> {Sx(<<"v", "1", "s", "e", "c", "#", "8", "!">>)}
           [] pk = << <<"v1", "inner">>, "tok">> -> {Sx(<<"i", "n", "t", "o", "k", "#", "9", "!">>)}
           [] pk = << <<"v1", "inner">>, "v2">> -> {D1(<<"s", "2">>, Sx(<<"v", "2", "s", "2", "#", "1", "0", "!">>))}
